@@ -37,13 +37,16 @@ def build(m):
                        'len(tokens) <= _k0', 'forall(lambda i: allocated(tokens[i]), 0, len(tokens))',
                        'forall(lambda i: exists(lambda j: tokens[i].line_number == parse_buffer.items[j][2], 0, len(parse_buffer.items)), 0, len(tokens))'])},
                    prop=['C13', 'C01']))
+    NLREQ = lambda a: [("forall(lambda i: %s[i].endswith('\\n'), 0, len(%s))" % (a, a), ['C01', 'C15'])]
     m.add(Contract(TZ + ':tokenize', [('iterable', TList(STR)), ('token_types', TList(BLOCKCLS))], returns=TList(TOK),
+                   requires=NLREQ('iterable'),
                    modifies=['G:SCRATCH', 'G:FOOTNOTES', 'G:INLINE_PHASE', 'N:Token.line_number', 'N:Token.children',
                              'F:Token.line_number',
                              'N:FileWrapper._index', 'N:FileWrapper.lines', 'N:FileWrapper.start_line',
                              'N:FileWrapper._anchor', 'N:ParseBuffer.items', 'N:ParseBuffer.loose'],
                    allow_exc=['CustomTokenError'], may_raise=['CustomTokenError'], prop=['C11', 'C07']))
     m.add(Contract(BT + ':tokenize', [('lines', TList(STR))], returns=TList(TOK),
+                   requires=NLREQ('lines'),
                    modifies=['G:SCRATCH', 'G:FOOTNOTES', 'G:INLINE_PHASE', 'N:Token.line_number', 'N:Token.children',
                              'F:Token.line_number',
                              'N:FileWrapper._index', 'N:FileWrapper.lines', 'N:FileWrapper.start_line',
